@@ -1,4 +1,5 @@
 #![allow(dead_code, unused_imports, unused_variables, clippy::all)]
+mod attacks;
 mod engine;
 mod lincode;
 mod model;
